@@ -383,6 +383,26 @@ pub fn cases(tier: Tier, seed: u64) -> Vec<EnumCase> {
             v.push(EnumCase::collect(&format!("multi-{}p-{}", n, rep), f, ranges));
         }
     }
+    // which seats block each other: private cards per seat plus cards shared by chosen PAIRS of seats only, so that
+    // e.g. seats 0 and 2 overlap while every neighbouring pair is disjoint (a shortcut that looks at neighbours, at
+    // seat 0, or at the previous seat only must not skip the other pairs), and seats that are pairwise disjoint
+    let graphs: Vec<(usize, Vec<(usize, usize)>)> = vec![
+        (3, vec![(0, 2)]),
+        (3, vec![]),
+        (3, vec![(1, 2)]),
+        (4, vec![(0, 2)]),
+        (4, vec![(1, 3)]),
+        (4, vec![(0, 3)]),
+        (4, vec![(0, 2), (1, 3)]),
+        (4, vec![]),
+        (5, vec![(0, 4)]),
+        (5, vec![(1, 3), (0, 2)]),
+        (5, vec![(2, 4), (0, 3)]),
+        (6, vec![(0, 5), (1, 4)]),
+    ];
+    for (g, (n, pairs)) in graphs.iter().enumerate() {
+        v.push(overlap_graph_case(&mut rng, &format!("overlap-graph-{}p-{:?}", n, pairs).replace(' ', ""), *n, pairs, g));
+    }
     // weights at the corners of f32 multiplication: 1 and the value just below it, powers of two and
     // their neighbours (the probability must be one of the exactly computable products)
     for (i, sizes) in [vec![6usize], vec![1], vec![5, 5], vec![3, 3, 3], vec![2, 3, 2, 2], vec![12, 1]].iter().enumerate() {
@@ -433,6 +453,36 @@ pub fn cases(tier: Tier, seed: u64) -> Vec<EnumCase> {
         v.push(EnumCase::collect(&format!("random-{}", i), f, ranges));
     }
     v
+}
+
+/// `n` seats with three private cards each; every listed pair of seats additionally shares two cards that both
+/// hold in two of their combos. No other pair of seats has a card in common.
+fn overlap_graph_case(rng: &mut Rng, label: &str, n: usize, pairs: &[(usize, usize)], texture: usize) -> EnumCase {
+    let f = textured_flop(rng, texture);
+    let mut deck: Vec<u8> = (0..52u8).filter(|c| !f.contains(c)).collect();
+    rng.shuffle(&mut deck);
+    let mut take = |k: usize| -> Vec<u8> { deck.split_off(deck.len() - k) };
+    let private: Vec<Vec<u8>> = (0..n).map(|_| take(3)).collect();
+    let weights = [1.0f32, 0.5, 0.25, 0.75];
+    let mut ranges: Vec<Combos> = private
+        .iter()
+        .enumerate()
+        .map(|(i, p)| vec![(pid(p[0], p[1]), weights[i % 4]), (pid(p[0], p[2]), 1.0), (pid(p[1], p[2]), 0.5)])
+        .collect();
+    for (a, b) in pairs {
+        let shared = take(2);
+        for seat in [*a, *b] {
+            for (k, s) in shared.iter().enumerate() {
+                ranges[seat].push((pid(*s, private[seat][k]), weights[(seat + k) % 4]));
+            }
+        }
+        // one combo made of the two shared cards for the first seat of the pair
+        ranges[*a].push((pid(shared[0], shared[1]), 1.0));
+    }
+    for r in ranges.iter_mut() {
+        rng.shuffle(r);
+    }
+    EnumCase::collect(label, f, ranges)
 }
 
 pub fn run(ctx: &Ctx) -> Report {
